@@ -15,7 +15,7 @@ from __future__ import annotations
 import ast
 import copy
 
-from .core import norm
+from .core import AnalysisError, norm
 
 PURE_CALLS = {
     "str", "len", "isinstance", "issubclass", "type", "getattr", "hasattr", "repr", "int", "float", "bool", "tuple",
@@ -521,6 +521,7 @@ def summarise(fn, body=None, keep=(), limit=4000, inline=True):
         dirty = set()
         carried = []
         impure = set()
+        dirty_params = set()
         facts = set()
         effects = []
 
@@ -594,6 +595,30 @@ def summarise(fn, body=None, keep=(), limit=4000, inline=True):
                 if isinstance(st, ast.Assign) and len(st.targets) == 1 and isinstance(st.targets[0], ast.Name) and st.targets[0].id not in params and is_pure(st.value):
                     env[st.targets[0].id] = sub(st.value)
                     continue
+                if (
+                    isinstance(st, ast.Assign) and len(st.targets) == 1 and isinstance(st.targets[0], (ast.Tuple, ast.List)) and body is None
+                    and all(isinstance(e, ast.Name) for e in st.targets[0].elts) and any(e.id in real_params for e in st.targets[0].elts)
+                    and not any(e.id in dirty for e in st.targets[0].elts) and not paths_written(ast.Expr(value=st.value))
+                ):
+                    # simultaneous re-binding that involves parameters (a, b = b, a  /  a, b = helper(a, b)): the
+                    # right-hand side is read under the old bindings; a parameter that still denotes the argument as
+                    # passed in is protected from later substitution
+                    v = sub(st.value)
+                    tnames = {e.id for e in st.targets[0].elts}
+                    for x in ast.walk(v):
+                        if isinstance(x, ast.Name) and x.id in tnames and x.id in real_params and x.id not in env:
+                            x.id = "__orig_" + x.id
+                    pure = is_pure(st.value)
+                    if not pure:
+                        effects.append(norm(v))
+                    for i, e in enumerate(st.targets[0].elts):
+                        if isinstance(v, (ast.Tuple, ast.List)) and len(v.elts) == len(st.targets[0].elts):
+                            env[e.id] = v.elts[i]
+                        else:
+                            env[e.id] = ast.Subscript(value=copy.deepcopy(v), slice=ast.Constant(value=i), ctx=ast.Load())
+                        if not pure:
+                            impure.add(e.id)
+                    continue
                 if isinstance(st, ast.Assign) and len(st.targets) == 1 and isinstance(st.targets[0], (ast.Tuple, ast.List)) and all(isinstance(e, ast.Name) and e.id not in params for e in st.targets[0].elts) and is_pure(st.value):
                     v = sub(st.value)
                     for i, e in enumerate(st.targets[0].elts):
@@ -618,15 +643,26 @@ def summarise(fn, body=None, keep=(), limit=4000, inline=True):
                         carried.remove(k)
                         dirty.add(k)
                 effects.append(norm(sub(st)))
+                def drop(k):
+                    # the binding of k is no longer known.  For a local that is all there is to say; a *parameter*
+                    # name that was re-bound must not fall back to meaning the argument as passed in
+                    if k in real_params and body is None and (k in env or k in dirty_params):
+                        env[k] = ast.Name(id=k + "__rebound", ctx=ast.Load())
+                        dirty_params.add(k)
+                    else:
+                        env.pop(k, None)
+
                 for k in list(impure):
-                    env.pop(k, None)
+                    drop(k)
                 impure.clear()
                 for k in list(env):
-                    if paths_read(env[k]) & w or k in w:
-                        env.pop(k)
+                    if (paths_read(env[k]) & w or k in w) and not (isinstance(env[k], ast.Name) and env[k].id == k + "__rebound"):
+                        drop(k)
                 for n in ast.walk(st):
                     if isinstance(n, ast.Name) and isinstance(n.ctx, ast.Store):
-                        env.pop(n.id, None)
+                        if n.id in real_params and body is None:
+                            dirty_params.add(n.id)
+                        drop(n.id)
             elif ev[0] == "return":
                 kind = "return"
                 value = norm(sub(ev[1].value)) if ev[1].value is not None else "None"
